@@ -64,15 +64,21 @@ Proof. reflexivity. Qed.
 Lemma blen6 (a b c d e f : N) : blen [a; b; c; d; e; f] = 6.
 Proof. reflexivity. Qed.
 
-Definition A0 : inner := mkInner (set_initiator session_new true) 0 [] 0.
-Definition A1 : inner := mkInner (mkSess true 0 0 0 0 false recvw_new sendw_new false) 0 [] 0.
-Definition B0 (rel : bool) : inner := mkInner (set_relaxed session_new rel) 0 [] 0.
+(** the ends during the handshake; [oa buf off] = the outgoing SDU slot (an SDU may be
+    queued before the handshake completes) *)
+Definition A0 (oa : N) (buf : bytes) (off : N) : inner :=
+  mkInner (set_initiator session_new true) oa buf off.
+Definition A1 (oa : N) (buf : bytes) (off : N) : inner :=
+  mkInner (mkSess true 0 0 0 0 false recvw_new sendw_new false) oa buf off.
+Definition B0 (rel : bool) (oa : N) (buf : bytes) (off : N) : inner :=
+  mkInner (set_relaxed session_new rel) oa buf off.
 
 (** step 1: the initiator emits its request *)
-Lemma hs_step1 gA t : step A0 (OOut gA t POLL_CAP) = (A1, RBytes (req_bytes gA)).
+Lemma hs_step1 gA t oa buf off :
+  step (A0 oa buf off) (OOut gA t POLL_CAP) = (A1 oa buf off, RBytes (req_bytes gA)).
 Proof.
   pose proof (req_mtu_range gA) as Hq.
-  unfold step, process_outgoing, A0, set_initiator, session_new. cbn [sess hs_pending initiator
+  unfold step, process_outgoing, A0, set_initiator, session_new. cbn [sess out_addr out_buf out_off hs_pending initiator
     address version mtu wsize recv send relaxed].
   unfold prep_tx_handshake. cbn [hs_pending initiator].
   unfold prep_tx_handshake_req. fold (req_mtu gA).
@@ -93,13 +99,13 @@ Proof. reflexivity. Qed.
 Lemma check_hs_hdr : check_handshake_integrity hs_hdr = Ok tt.
 Proof. reflexivity. Qed.
 
-Definition B1 (rel : bool) (aA m w : N) : inner :=
-  mkInner (setup (set_relaxed session_new rel) aA 4 m w) 0 [] 0.
+Definition B1 (rel : bool) (aA m w : N) (oa : N) (buf : bytes) (off : N) : inner :=
+  mkInner (setup_state (set_relaxed session_new rel) aA 4 m w) oa buf off.
 
 (** step 2: the responder accepts the request *)
-Lemma hs_step2 gA gB rel aA :
-  step (B0 rel) (OIn gB aA (req_bytes gA)) =
-  (B1 rel aA (nego_mtu gA gB rel) (nego_win gA gB rel), RUnit).
+Lemma hs_step2 gA gB rel aA oa buf off :
+  step (B0 rel oa buf off) (OIn gB aA (req_bytes gA)) =
+  (B1 rel aA (nego_mtu gA gB rel) (nego_win gA gB rel) oa buf off, RUnit).
 Proof.
   pose proof (req_mtu_range gA) as Hq.
   assert (Hq3 : 20 <= req_mtu gA - GATT_HDR <= 244) by (unfold GATT_HDR; lia).
@@ -120,19 +126,19 @@ Proof.
   2:{ unfold nego_mtu. symmetry. apply csub_ok. unfold clamp, MIN_MTU, MAX_MTU, GATT_HDR. lia. }
   cbn [bind]. unfold initial_window_size.
   destruct (N.eqb_spec (nego_mtu gA gB rel) 0); [lia|]. cbn [bind].
-  reflexivity.
+  unfold setup. cbn [initiator bind]. reflexivity.
 Qed.
 
-Definition B2 (rel : bool) (aA m w : N) : inner :=
-  mkInner (mkSess false aA 4 m w false (mkRW [] 0 w 0 255 0) (mkSW w (w - 1) 0) rel) 0 [] 0.
+Definition B2 (rel : bool) (aA m w : N) (oa : N) (buf : bytes) (off : N) : inner :=
+  mkInner (mkSess false aA 4 m w false (mkRW [] 0 w 0 255 0) (mkSW w (w - 1) 0) rel) oa buf off.
 
 (** step 3: the responder emits its response (its sequence number 0) *)
-Lemma hs_step3 rel aA m w g t :
+Lemma hs_step3 rel aA m w g t oa buf off :
   1 <= w ->
-  step (B1 rel aA m w) (OOut g t POLL_CAP) = (B2 rel aA m w, RBytes (resp_bytes m w)).
+  step (B1 rel aA m w oa buf off) (OOut g t POLL_CAP) = (B2 rel aA m w oa buf off, RBytes (resp_bytes m w)).
 Proof.
   intro Hw.
-  unfold step, process_outgoing, B1, setup, set_relaxed, session_new. cbn [sess hs_pending initiator
+  unfold step, process_outgoing, B1, setup_state, set_relaxed, session_new. cbn [sess out_addr out_buf out_off hs_pending initiator
     address version mtu wsize recv send relaxed negb].
   unfold prep_tx_handshake. cbn [hs_pending initiator].
   unfold prep_tx_handshake_resp. cbn [version mtu wsize send].
@@ -145,13 +151,13 @@ Proof.
   unfold B2, resp_bytes. reflexivity.
 Qed.
 
-Definition A2 (aB m w : N) : inner :=
-  mkInner (mkSess true aB 4 m w false (mkRW [] 0 w 0 0 0) (mkSW w w 255) false) 0 [] 0.
+Definition A2 (aB m w : N) (oa : N) (buf : bytes) (off : N) : inner :=
+  mkInner (mkSess true aB 4 m w false (mkRW [] 0 (w - 1) 1 0 0) (mkSW w w 255) false) oa buf off.
 
 (** step 4: the initiator accepts the response *)
-Lemma hs_step4 aB m w g :
+Lemma hs_step4 aB m w g oa buf off :
   20 <= m <= 244 -> 1 <= w <= 255 ->
-  step A1 (OIn g aB (resp_bytes m w)) = (A2 aB m w, RUnit).
+  step (A1 oa buf off) (OIn g aB (resp_bytes m w)) = (A2 aB m w oa buf off, RUnit).
 Proof.
   intros Hm Hw.
   unfold step, process_incoming, process_rx, A1, resp_bytes. cbn [sess].
@@ -161,7 +167,8 @@ Proof.
   unfold MIN_MTU, MAX_MTU, GATT_HDR.
   destruct (N.ltb_spec m (23 - 3)); [lia|]. destruct (N.ltb_spec (247 - 3) m); [lia|].
   destruct (N.eqb_spec w 0); [lia|]. cbn [orb bind].
-  unfold setup, A2. cbn [initiator relaxed negb]. reflexivity.
+  unfold setup. cbn [initiator]. rewrite csub_ok by lia. cbn [bind].
+  unfold setup_state, A2. cbn [initiator relaxed negb]. reflexivity.
 Qed.
 
 (** the whole handshake, for every GATT MTU on both sides and both MTU
@@ -186,7 +193,7 @@ Proof.
       by (apply N.mul_le_mono_r; unfold nego_win; lia).
     lia. }
   split; [|split; [assumption|split; assumption]].
-  unfold sys_fresh. fold A0. fold (B0 rel).
+  unfold sys_fresh. fold (A0 0 [] 0). fold (B0 rel 0 [] 0).
   cbn [sys_run sys_step ep set_ep ch_to set_ch_to other gatt_of addr_of epA epB chAB chBA fst snd].
   rewrite hs_step1. unfold req_bytes at 1.
   cbn [sys_run sys_step ep set_ep ch_to set_ch_to other gatt_of addr_of epA epB chAB chBA fst snd app].
@@ -194,7 +201,7 @@ Proof.
   cbn [sys_run sys_step ep set_ep ch_to set_ch_to other gatt_of addr_of epA epB chAB chBA fst snd app].
   rewrite hs_step3 by lia. unfold resp_bytes at 1.
   cbn [sys_run sys_step ep set_ep ch_to set_ch_to other gatt_of addr_of epA epB chAB chBA fst snd app].
-  match goal with |- context[step A1 (OIn ?g ?a ?d)] =>
+  match goal with |- context[step (A1 0 [] 0) (OIn ?g ?a ?d)] =>
     change d with (resp_bytes (nego_mtu (gattA c) (gattB c) rel) (nego_win (gattA c) (gattB c) rel)) end.
   rewrite hs_step4 by assumption.
   cbn [sys_run sys_step ep set_ep ch_to set_ch_to other gatt_of addr_of epA epB chAB chBA fst snd app].
